@@ -23,27 +23,32 @@ out += ["  (\"%s\", %s.%s)%s" % (key, ns, n, "," if i < len(mods) - 1 else "") f
 out += ["]", "", r'''def tokens (line : String) : List String :=
   (line.splitOn " ").filter (· ≠ "")
 
-partial def loop (h : IO.FS.Stream) (out : IO.FS.Stream) (cur : Option Sess) : IO Unit := do
+/-- `saved` = the session as of the last `txn commit` (every session state is a pure value, so a
+transaction abort of the database the real objects live in is "continue from the saved value";
+a commit and a cache eviction are invisible).  Used by the ZODB-backed streams of the index checks. -/
+partial def loop (h : IO.FS.Stream) (out : IO.FS.Stream) (cur saved : Option Sess) : IO Unit := do
   let line ← h.getLine
   if line.isEmpty then return ()
   let line := (line.replace "\n" "").replace "\r" ""
   match tokens line with
   | ["session", name] =>
     match sessions.lookup name with
-    | some s => out.putStrLn "ok"; loop h out (some s)
-    | none => out.putStrLn "bad-session"; loop h out none
+    | some s => out.putStrLn "ok"; loop h out (some s) none
+    | none => out.putStrLn "bad-session"; loop h out none none
+  | "txn" :: "commit" :: _ => out.putStrLn "ok"; loop h out cur cur
+  | ["txn", "abort"] => out.putStrLn "ok"; loop h out (if saved.isSome then saved else cur) saved
   | toks =>
     match cur with
-    | none => out.putStrLn "no-session"; loop h out none
+    | none => out.putStrLn "no-session"; loop h out none saved
     | some s =>
       let (s', o) := s.run1 toks
       out.putStrLn o
-      loop h out (some s')
+      loop h out (some s') saved
 
 def main : IO Unit := do
   let stdin ← IO.getStdin
   let stdout ← IO.getStdout
-  loop stdin stdout none
+  loop stdin stdout none none
   stdout.flush''']
 open(os.path.join(D, "Main.lean"), "w").write("\n".join(out) + "\n")
 print("sessions:", [m[3] for m in mods])
